@@ -1001,7 +1001,7 @@ pub mod implementations {
 
     #[inline(always)]
     pub(crate) fn jmp_not_nil(ctx: &mut Ctx, args: &[String]) -> Result<()> {
-        let Some(primitive) = ctx.get_last_op_item() else {
+        let Some(primitive) = ctx.get_last_op_item_mut() else {
             bail!("`jmp_not_nil` requires a primitive at the top of the local operating stack");
         };
 
@@ -1020,6 +1020,20 @@ pub mod implementations {
         {
             ctx.pop();
             return Ok(());
+        }
+
+        // a present optional produced by a built-in arrives boxed: the value of `(x) or y` is its payload
+        let payload = match primitive
+            .move_out_of_heap_primitive_borrow()
+            .context("could not move out of heap primitive")?
+            .as_ref()
+        {
+            Primitive::Optional(Some(present)) => Some(*present.clone()),
+            _ => None,
+        };
+
+        if let Some(payload) = payload {
+            *primitive = payload;
         }
 
         ctx.signal(InstructionExitState::Goto(lines_to_jump));
